@@ -147,6 +147,11 @@ let spec_H c q = let n = ndof c in
   let cols = List.init n (fun k -> spec_tau c zero3 q (zeros n) (unit n k) None) in
   mTn fo cols (nat_of_int n)
 
+(* condition estimate ||A||_inf ||A^-1||_inf (infinity when singular) *)
+let cond_est (a : float list list) : float =
+  let ninf m = List.fold_left (fun acc r -> max acc (List.fold_left (fun s x -> s +. abs_float x) 0. r)) 0. m in
+  match minverse fo a with Some ai -> ninf a *. ninf ai | None -> infinity
+
 (* extension hook: commands added by other modules (constraints, addons) *)
 let ext_cmd : (ctx -> string -> toks -> int -> bool) ref = ref (fun _ _ _ _ -> false)
 
@@ -312,6 +317,7 @@ let run_line c (l : string) seq =
            setw c w; line "o" seq "qdd" (fun () -> match qdd with Some x -> ovec x | None -> os "singular") end);
         spec_try (fun () ->
           let h = spec_H c q in let nv = spec_tau c m.gravity q qd (zeros n_qd) fe in
+          line "i" seq "cond" (fun () -> od (cond_est h));
           match solve_pp fo h (List.map2 (-.) tau nv) with
           | Some x -> line "s" seq "qdd" (fun () -> ovec x)
           | None -> ())
@@ -319,7 +325,8 @@ let run_line c (l : string) seq =
         let flag = integer t <> 0 in let q = vec t in let tau = vec t in
         let (w, qdd) = minv_times_tau fo m m.ws q tau (zeros n_qd) flag in
         setw c w; line "o" seq "qdd" (fun () -> ovec qdd);
-        if flag then spec_try (fun () -> match solve_pp fo (spec_H c q) tau with Some x -> line "s" seq "qdd" (fun () -> ovec x) | None -> ())
+        if flag then spec_try (fun () -> let h = spec_H c q in line "i" seq "cond" (fun () -> od (cond_est h));
+          match solve_pp fo h tau with Some x -> line "s" seq "qdd" (fun () -> ovec x) | None -> ())
       | "com" ->
         let flag = integer t <> 0 in let q = vec t in let qd = vec t in let has = integer t <> 0 in
         let qdd = if has then Some (vec t) else None in
